@@ -59,6 +59,9 @@ func runC10(t *simrt.Tape, o Opts) Outcome {
 			w.Faults.Kinds["alloc.err"] = true
 			w.Faults.Kinds["aead.err"] = true
 			w.Faults.Kinds["ctx.cancel"] = t.Choose(2, "ctx.cancel") == 1
+			// re-protecting a key's pages after it was used can fail (mprotect): the access then reports
+			// an error although its callback produced a result
+			w.Faults.Kinds["release.err"] = t.Choose(2, "release.err") == 1
 		}
 		checked := 0
 		sources := map[string]bool{}
